@@ -172,7 +172,7 @@ func c17Accept(w *core.W, in []byte, entry string) {
 
 // ---- meaning: enum: @e  ==  enum: [list]
 
-var c17Layouts = []string{"compact", "spaced", "lines", "line-notes", "block-notes"}
+var c17Layouts = []string{"compact", "spaced", "lines", "line-notes", "block-notes", "empty-annotations"}
 
 func c17Render(list []string, layout string) string {
 	switch layout {
@@ -193,6 +193,25 @@ func c17Render(list []string, layout string) string {
 			fmt.Fprintf(&b, " // note %d\n", i)
 		}
 		b.WriteString("]")
+		return b.String()
+	case "empty-annotations":
+		var b strings.Builder
+		b.WriteString("[ /**/\n")
+		for i, it := range list {
+			b.WriteString("\t" + it)
+			if i != len(list)-1 {
+				b.WriteString(",")
+			}
+			switch i % 3 {
+			case 0:
+				b.WriteString(" /**/\n")
+			case 1:
+				b.WriteString(" /* */\n")
+			default:
+				b.WriteString(" /*\n\t*/\n")
+			}
+		}
+		b.WriteString("] //")
 		return b.String()
 	case "block-notes":
 		var b strings.Builder
